@@ -28,10 +28,10 @@ open Dashu.Model.Float
 def kInfinite : String := "Infinite"
 def kDivZero : String := "DivideByZero"
 def kUnlimited : String := "UnlimitedPrecision"
-/-- `debug_assert!(lhs.digits() <= self.precision + rhs.digits())` at the head of `Context::repr_div` (source line removed
-    by the harness: `forms_rt2::norm_result`) -/
+/-- `debug_assert!(lhs.digits() <= self.precision.saturating_add(rhs.digits()))` at the head of `Context::repr_div`
+    (text since 5768014; source line removed by the harness: `forms_rt2::norm_result`) -/
 def kDivAssert : String :=
-  "Undocumented(float/src/div.rs|assertion_failed:_lhs.digits()_<=_self.precision_+_rhs.digits())"
+  "Undocumented(float/src/div.rs|assertion_failed:_lhs.digits()_<=_self.precision.saturating_add(rhs.digits()))"
 def kAddOverflow : String := "Undocumented(float/src/shift.rs|attempt_to_add_with_overflow)"
 def kSubOverflow : String := "Undocumented(float/src/shift.rs|attempt_to_subtract_with_overflow)"
 
@@ -62,17 +62,19 @@ def convertInt (B : Nat) (m : Mode) (c : Coarse) (p : Nat) (n : Int) : FRepr := 
 /-! ### add / sub -/
 
 /-- the four ownership forms of `FBig ± FBig` at `Context::max` precision `p`: a zero operand returns the other one
-    UNROUNDED (sign applied for `0 - b`), otherwise the alignment code of `Context::add/sub` -/
+    (sign applied for `0 - b`) ROUNDED to `p` by `context.repr_round(..).value()` / `repr_round_ref` (since 164990d; before
+    that fix the operand came back unrounded), otherwise the alignment code of `Context::add/sub` -/
 def opAddSub (B : Nat) (m : Mode) (c : Coarse) (dub : Int → Nat) (p : Nat) (lhs rhs : FRepr) (rs : Int) : FRepr :=
-  if lhs.isZero then ⟨rs * rhs.signif, rhs.exp⟩
-  else if rhs.isZero then lhs
+  if lhs.isZero then (reprRound B m c p ⟨rs * rhs.signif, rhs.exp⟩).1
+  else if rhs.isZero then (reprRound B m c p lhs).1
   else (ctxAddSub B m c dub p lhs rhs rs).1
 
 /-! ### div -/
 
 /-- the operator forms `a / b`, `a /= b` (`impl_div_or_rem_for_fbig`): `Context::repr_div` called directly, so its debug
     assertion on the dividend's length is reachable (after the finiteness and limited-precision checks, before the
-    division that detects a zero divisor) -/
+    division that detects a zero divisor).  `self.precision.saturating_add(rhs.digits())` is the `Nat` sum here: the
+    saturated value `usize::MAX` is not exceeded by any digit count either (Nat/usize gap, no behaviour lost). -/
 def opDiv (B : Nat) (m : Mode) (p : Nat) (lhs rhs : FRepr) : Except String FRepr :=
   if p = 0 then .error kUnlimited
   else if lhs.digits B > p + rhs.digits B then .error kDivAssert
@@ -86,7 +88,8 @@ def opDiv (B : Nat) (m : Mode) (p : Nat) (lhs rhs : FRepr) : Except String FRepr
     smaller exponent: the remainder of smallest magnitude (`r1` with the dividend's sign or `r2 = |rhs| − r1` with the
     opposite sign, ties to `r2`).  Three branches by `lhs.exponent.cmp(&rhs.exponent)`.
     `Ordering::Greater` branch: the residue of `|lhs|·B^shift` is formed in the ring `ConstDivisor::new(|rhs|)`
-    (`IntoRing`, `pow`, `*`, `residue`) — taken here at its specification `% |rhs|` (that ring arithmetic is C13's). -/
+    (`IntoRing`, `pow`, `*`, `residue`) — taken here at its specification `% |rhs|`; `Props/C15LinkRem` proves, by import of
+    C13's theorems, that the ring computation on C13's mirrored model returns exactly these `r1`, `r2`. -/
 def remSignif (B : Nat) (lhs rhs : FRepr) : Int :=
     let ls : Int := if lhs.signif < 0 then -1 else 1
     let a : Nat := lhs.signif.natAbs
@@ -203,7 +206,7 @@ def opBin (B : Nat) (m : Mode) (est : Est) (fam : String) (x y : FBigM) : Option
   | _ => none
 
 /-- the `Context` METHOD form at `Context::max` of the operand contexts (the code as it is: `Context::mul` and
-    `Context::div` pre-shrink over-long operands, `Context::add/sub` round a lone non-zero operand) -/
+    `Context::div` pre-shrink over-long operands; `Context::add/sub` round a lone non-zero operand, as the operators now do) -/
 def ctxBin (B : Nat) (m : Mode) (est : Est) (fam : String) (x y : FBigM) : Option (Except String FRes) :=
   let c := coarseNone
   let p := ctxMax x.prec y.prec
